@@ -87,7 +87,7 @@ Next == /\ ph = 0 /\ ph' = 1
            THEN x' \in Bnd(a) /\ y' \in Bnd(b) /\ z' \in Bnd(c)
            ELSE IF sh = "cond" THEN x' \in Bnd(a) /\ y' \in Bnd(b) /\ z' \in All(c)
            ELSE IF sh = "fcmp" THEN x' \in 1..Len(FV) /\ y' \in 1..Len(FV) /\ z' = 0
-           ELSE IF sh = "fbin" THEN x' \in All(a) /\ y' \in ({MinV(a), -1, 1, 3, MaxV(a)} \cap Vals(a)) /\ z' = 0
+           ELSE IF sh = "fbin" THEN x' \in All(a) /\ y' \in ({-1, 1, MaxV(a)} \cap Vals(a)) /\ z' = 0
            ELSE IF sh = "fcond" THEN x' \in All(a) /\ y' \in Bnd(a) /\ z' \in {0, 1}
            ELSE IF sh = "vla" THEN x' \in 1..3 /\ y' \in 1..2 /\ z' = 0
            ELSE IF sh = "bfinitf" THEN x' \in 1..Len(FV) /\ y' = 0 /\ z' = 0
